@@ -1,6 +1,10 @@
 package main
 
-import "gopkg.in/typ.v4/arrays"
+import (
+	"strings"
+
+	"gopkg.in/typ.v4/arrays"
+)
 
 // C08: arrays.Array2D[int]
 type c08 struct{ arrs map[int]arrays.Array2D[int] }
@@ -63,6 +67,26 @@ func (w *c08) step(t []string) string {
 		return itoa(a.Width()) + " " + itoa(a.Height())
 	case "cells":
 		return reparse(w.get(t[1]).String())
+	case "cellss":
+		// the same grid instantiated with string cells ("s<v>"): String() goes through fmt, which is NOT parametric in the cell type
+		a := w.get(t[1])
+		b := arrays.New2D[string](a.Width(), a.Height())
+		for y := 0; y < a.Height(); y++ {
+			for x := 0; x < a.Width(); x++ {
+				b.Set(x, y, "s"+itoa(a.Get(x, y)))
+			}
+		}
+		return reparse(strings.ReplaceAll(b.String(), "s", ""))
+	case "cellsf":
+		// float cells: v + 0.5 prints as "<v>.5"
+		a := w.get(t[1])
+		b := arrays.New2D[float64](a.Width(), a.Height())
+		for y := 0; y < a.Height(); y++ {
+			for x := 0; x < a.Width(); x++ {
+				b.Set(x, y, float64(a.Get(x, y))+0.5)
+			}
+		}
+		return reparse(strings.ReplaceAll(b.String(), ".5", ""))
 	}
 	return bad()
 }
